@@ -60,7 +60,7 @@ UNIT = {
            loop_specs={0: {'invariant': [('wf', WFS), ('progress', '2 <= length && self.position + offset + length <= self.input@.len()'), ('began', 'starts_comment(self.input@, self.position + offset)')], 'decreases': 'self.input@.len() - (self.position + offset + length)'},
                        1: {'invariant': [('wf', WFS), ('progress', '2 <= length && self.position + offset + length <= self.input@.len()'), ('began', 'starts_comment(self.input@, self.position + offset)')], 'decreases': 'self.input@.len() - (self.position + offset + length)'}}),
         {'kind': 'vrs', 'file': 'names/lookahead.vrs'},
-        lx('consume_name', ret='r', loops=3, attrs='#[verifier::exec_allows_no_decreases_clause]\n#[verifier::rlimit(200)]',
+        lx('consume_name', ret='r', loops=3, attrs='#[verifier::rlimit(200)]',
            requires=[('wf', WF0), ('at_name_start', 'old(self).position < old(self).input@.len() ==> g_name_part(old(self).input@[old(self).position as int])')],
            body_prefix='proof { reveal_strlit(""); }\nbroadcast use vstd::std_specs::hash::group_hash_axioms;\nbroadcast use group_string_keys;\nproof { axiom_string_key_model(); }',
            ensures=[('frame', 'final(self).input == old(self).input && final(self).scope == old(self).scope'),
@@ -95,8 +95,9 @@ UNIT = {
                                                  '&& (forall |i: int| 0 <= i < current_part@.len() ==> g_name_part(#[trigger] current_part@[i])) '
                                                  '&& (forall |j: int| consumed_positions@.last() < j < self.position + 1 - current_part@.len() ==> g_whitespace(#[trigger] self.input@[j])) '
                                                  '&& (current_part@.len() == 0 ==> self.position + 1 < self.input@.len() && g_name_part(self.input@[self.position + 1]))')],
-                           'ensures': [('scan_complete', 'name_scan(self.input@, old(self).position as int, parts@, consumed_positions@, self.position as int)')]},
-                       1: {'body_prefix': 'broadcast use vstd::std_specs::hash::group_hash_axioms;\nbroadcast use group_string_keys;\nproof { axiom_string_key_model(); }',
+                           'ensures': [('scan_complete', 'name_scan(self.input@, old(self).position as int, parts@, consumed_positions@, self.position as int)')],
+                           'decreases': 'self.input@.len() - self.position, scan_rank(state as int, self.input@, self.position as int)'},
+                       1: {'decreases': 'part_count', 'body_prefix': 'broadcast use vstd::std_specs::hash::group_hash_axioms;\nbroadcast use group_string_keys;\nproof { axiom_string_key_model(); }',
                            'invariant': [
                              ('all_parts', 'parts@ == parts_all && self.position == end0 && lx_wf(self.position, self.input@)'),
                              ('not_introduced', "!next_is(self.input@, end0 as int, seq![':'])"),
@@ -105,7 +106,7 @@ UNIT = {
                              ('keys', 'forall |k: String| #[trigger] flattened_keys@.contains(k) <==> scope_keys(*self.scope).contains(k@)'),
                              ('scan', 'name_scan(self.input@, old(self).position as int, parts@, consumed_positions@, self.position as int)'),
                              ('longer_prefixes_unbound', 'part_count <= parts@.len() && forall |k2: int| part_count < k2 <= parts@.len() ==> !scope_keys(*self.scope).contains(#[trigger] flat(parts@.subrange(0, k2)))')]},
-                       2: {'invariant': [
+                       2: {'decreases': 'part_count', 'invariant': [
                              ('frame', 'self.input == old(self).input && self.scope == old(self).scope && !self.till_in && !self.type_name && type_name_expected && old(self).type_name'),
                              ('all_parts', 'parts@ == parts_all && self.position == end0 && lx_wf(self.position, self.input@)'),
                              ('not_introduced', "!next_is(self.input@, end0 as int, seq![':'])"),
@@ -150,7 +151,7 @@ UNIT['lemma_props'] = sorted(set(UNIT.get('lemma_props', []) + ['C01']))   # the
 NOT_DECIDED = {'C10': ['flatten_name_parts, Name::new, FeelContext::flatten_keys are string code (trim, join, replace, format!): named by uninterpreted functions in the contract; their agreement is only checked by the bounded stand-in',
                        'names whose first word is `item` and names before `in` in iteration contexts follow the two tweaks spelled out in the contract (code-derived), not the longest-match rule',
                        'which grammar positions call consume_name (read_next_token) and how the parser uses the Name token; names ending in a symbol or with two adjacent symbols (outside the property\'s domain) do not resolve',
-                       'termination of consume_name (exec_allows_no_decreases_clause)']}
+                       ]}
 ASSUMPTIONS = ['A-str: flatten_name_parts / Name::from(Vec<String>) / Name::from(&str) / Scope::flatten_keys are deterministic functions of their arguments (uninterpreted flat, name_of_parts, name_of_str, scope_keys)',
                'A-std: HashSet<String>::contains decides membership by character sequence (String key model axioms); Vec::truncate, slice_subrange, String::push/clone specs of vstd',
                'R13: parts.iter().position(|v| v == "in").filter(|i| *i > 0) is the index of the first part equal to "in" unless that is part 0 (stub position_of_in)',
